@@ -1,5 +1,6 @@
 (* JudgeProofs.v — the extracted boolean judges decide the Props of the theorems. *)
-From PL Require Import Model.Level Spec.Hist Spec.StatsSpec Spec.Judges Proofs.IfaceProofs Proofs.BaseLemmas.
+From PL Require Import Model.Level Spec.Hist Spec.StatsSpec Spec.Judges Proofs.IfaceProofs Proofs.BaseLemmas
+  Proofs.StatsRebuildProofs.
 From Coq Require Import Lia ZifyBool ZifyN Sorted.
 Local Open Scope N_scope.
 
@@ -155,6 +156,42 @@ Lemma StatsAgree_of_conclusions p h added removed qty value :
 Proof.
   intros Ha Hr Hq Hv Hp. repeat split; try assumption.
   rewrite (val_executed_price p h Hp). exact Hv.
+Qed.
+
+(* ---- histories with rebuilds ---- *)
+Lemma stats_rebuild_b_iff p h added removed qty value :
+  stats_rebuild_b p h added removed qty value = true <-> StatsAgreeR p h added removed qty value.
+Proof.
+  unfold stats_rebuild_b, StatsAgreeR. cbv zeta.
+  rewrite !andb_true_iff, !N.eqb_eq, forallb_forall, Forall_forall.
+  split.
+  - intros ((((Ha & Hr) & Hq) & Hv) & Hp). repeat split; try assumption.
+    intros e He. apply ev_tx_price_b_iff. auto.
+  - intros (Ha & Hr & Hq & Hv & Hp). repeat split; try assumption.
+    intros e He. apply ev_tx_price_b_iff. auto.
+Qed.
+
+(* the conclusions of C15_across_rebuilds_mod, with value = quantity x level price, are [StatsAgreeR] *)
+Lemma StatsAgreeR_of_conclusions p h added removed qty value :
+  added = (rebuild_base h + n_added (since_rebuild h)) mod W ->
+  removed = n_removed p (since_rebuild h) mod W ->
+  qty = qty_executed (since_rebuild h) mod W ->
+  value = (qty_executed (since_rebuild h) * p) mod W ->
+  Forall (ev_tx_price p) h ->
+  StatsAgreeR p h added removed qty value.
+Proof.
+  intros Ha Hr Hq Hv Hp. repeat split; try assumption.
+  rewrite (val_executed_price p (since_rebuild h)); [exact Hv|].
+  rewrite <- (cut_rebuild_app h) in Hp. apply Forall_app in Hp. apply Hp.
+Qed.
+
+(* on a history without a rebuild event the two judges are the same function *)
+Lemma stats_rebuild_b_no_rebuild p h added removed qty value :
+  has_rebuild h = false ->
+  stats_rebuild_b p h added removed qty value = stats_b p h added removed qty value.
+Proof.
+  intros Hh. unfold stats_rebuild_b, stats_b. cbv zeta.
+  rewrite (since_rebuild_none h Hh), (rebuild_base_none h Hh), N.add_0_l. reflexivity.
 Qed.
 
 (* ================================================================== *)
